@@ -417,7 +417,20 @@ def jvp_wiring(ctx, rule):
             prim_smf = [c for c in ast.walk(f.node) if isinstance(c, ast.Call) and (dotted(c.func) or "").endswith("symmetric_matrix_function")]
             helper = [c for c in ast.walk(r.node) if isinstance(c, ast.Call) and (dotted(c.func) or "").endswith("_symmetric_matrix_function_jvp_helper")]
             if prim_smf:
-                ok = len(helper) == 1 and len(prim_smf) == 1 and same(helper[0].args[0], prim_smf[0].args[1])
+                # locals of the rule that are unpacked from `primals` stand for the primal function's parameters (by position)
+                ren = {}
+                rp = r.params()[0] if r.params() else None
+                for st_ in r.node.body:
+                    if isinstance(st_, ast.Assign) and isinstance(st_.targets[0], ast.Tuple) and isinstance(st_.value, ast.Name) and st_.value.id == rp:
+                        for t_, p_ in zip(st_.targets[0].elts, f.params()):
+                            if isinstance(t_, ast.Name):
+                                ren[t_.id] = p_
+
+                class _Ren(ast.NodeTransformer):
+                    def visit_Name(self, n_):
+                        return ast.copy_location(ast.Name(id=ren.get(n_.id, n_.id), ctx=n_.ctx), n_)
+                harg = _Ren().visit(copy.deepcopy(helper[0].args[0])) if len(helper) == 1 else None
+                ok = len(helper) == 1 and len(prim_smf) == 1 and same(harg, prim_smf[0].args[1])
                 ctx.decide(rule, ok, r, helper[0] if helper else None, construct=f"{f.name}:tangent-uses-the-primal-scalar-function",
                            detail=f"both use {src(prim_smf[0].args[1])}",
                            bad_detail=f"primal of {f.name} applies `{src(prim_smf[0].args[1])}` to the eigenvalues but its tangent rule differentiates "
